@@ -256,6 +256,25 @@ func TestC08(t *testing.T) {
 					}
 				}
 			}
+			// the cached program is shared by every client of the same text: running it with other
+			// bindings first must not change what this client gets, and vice versa
+			env2 := numgen.Rebind(rt, cs)
+			fresh2 := runImpl(cs.Text, env2, nil)
+			cached2 := runImpl(cs.Text, env2, cc.Compile)
+			if d := diffImpl(fresh2, cached2); d != "" {
+				if !c.IsKnown("C08/cache-other-bindings") {
+					rt.Logf("script:\n%s\nfirst env: %s\nsecond env: %s", cs.Text, numgen.EnvString(cs.Env), numgen.EnvString(env2))
+					violation(rt, c, "C08/cache-other-bindings", "after the cached program served one set of bindings, the same text with other bindings behaves differently from a fresh compilation: %s", d)
+				}
+				return
+			}
+			if d := diffImpl(impl, runImpl(cs.Text, cs.Env, cc.Compile)); d != "" {
+				if !c.IsKnown("C08/cache-other-bindings") {
+					rt.Logf("script:\n%s\nfirst env: %s\nsecond env: %s", cs.Text, numgen.EnvString(cs.Env), numgen.EnvString(env2))
+					violation(rt, c, "C08/cache-other-bindings", "after the cached program served other bindings, the original bindings behave differently: %s", d)
+				}
+				return
+			}
 			// two compilations of the same text are the same program
 			p1, e1 := compiler.Compile(cs.Text)
 			p2, e2 := compiler.Compile(cs.Text)
@@ -266,13 +285,26 @@ func TestC08(t *testing.T) {
 				return
 			}
 			// concurrent use of one cached program
+			// ... and concurrent users of the cache with other texts: each must get its own program
 			var wg sync.WaitGroup
 			diffs := make([]string, 8)
+			freshOthers := make([]implResult, 3)
+			for i := range freshOthers {
+				freshOthers[i] = runImpl(others[i], cs.Env, nil)
+			}
 			for i := 0; i < 8; i++ {
 				wg.Add(1)
 				go func(i int) {
 					defer wg.Done()
-					diffs[i] = diffImpl(impl, runImpl(cs.Text, cs.Env, cc.Compile))
+					for rep := 0; rep < 4; rep++ {
+						if i%2 == 0 {
+							if d := diffImpl(impl, runImpl(cs.Text, cs.Env, cc.Compile)); d != "" {
+								diffs[i] = d
+							}
+						} else if d := diffImpl(freshOthers[i%3], runImpl(others[i%3], cs.Env, cc.Compile)); d != "" {
+							diffs[i] = "other script: " + d
+						}
+					}
 				}(i)
 			}
 			wg.Wait()
